@@ -147,6 +147,16 @@ func (e *Eval) compile(node ast.Node) error {
 			return err
 		}
 
+		if node.Operator == "." {
+
+			// The member is named by what was written after
+			// the dot, it is not evaluated: `a.b` is `a["b"]`.
+			name := &object.String{Value: node.Right.String()}
+			e.emit(code.OpConstant, e.addConstant(name))
+			e.emit(code.OpIndex)
+			break
+		}
+
 		err = e.compile(node.Right)
 		if err != nil {
 			return err
